@@ -19,6 +19,7 @@ vh::use_jemalloc!();
 const OPS: &[&str] = &[
     "SET k a", "SET k b", "SET k c NX", "SET k d XX", "SET k e EX 100", "SET k f GET", "DEL k", "INCR k", "INCRBY k 5", "APPEND k x", "GETSET k g",
     "HSET k f a", "HSET k f b g c", "HDEL k f", "HINCRBY k n 1", "SET k 1", "DEL k j", "SET j z",
+    "SET k h NX GET", "SET k i XX GET", "SET k m KEEPTTL", "SET k p XX EX 100",
 ];
 const MAX_DELTAS: usize = 4;
 
@@ -194,6 +195,18 @@ impl World {
     }
 }
 
+fn permute(idx: &mut Vec<usize>, k: usize, f: &mut dyn FnMut(&[usize])) {
+    if k + 1 >= idx.len() {
+        f(idx);
+        return;
+    }
+    for i in k..idx.len() {
+        idx.swap(k, i);
+        permute(idx, k + 1, f);
+        idx.swap(k, i);
+    }
+}
+
 fn multi_del(evs: &[Ev]) -> bool {
     evs.iter().any(|e| matches!(e, Ev::Client(_, o) if OPS[*o] == "DEL k j"))
 }
@@ -250,8 +263,31 @@ fn run(nodes: usize, max_ops: usize, alpha: &[Ev], hist: &[u16], ev: u16) -> Opt
                 for n in 1..nodes {
                     if all_reads[n] != all_reads[0] {
                         let k = all_reads[0].keys().chain(all_reads[n].keys()).find(|k| all_reads[0].get(*k) != all_reads[n].get(*k)).unwrap().clone();
+                        // Cause classification: if the merge of this key's deltas depends on the order in which
+                        // they are merged (C07's subject: e.g. a hash, a register tombstone and a hash again), the
+                        // divergence is that of the merge function, and is named by the CRDT kinds involved
+                        // rather than by the commands that produced them.
+                        let vals: Vec<&redis_sim::replication::state::ReplicatedValue> = w.deltas.iter().filter(|(_, d, _)| d.key == k).map(|(_, d, _)| &d.value).collect();
+                        let order_dependent = {
+                            let mut outs = BTreeSet::new();
+                            let mut idx: Vec<usize> = (0..vals.len()).collect();
+                            permute(&mut idx, 0, &mut |p: &[usize]| {
+                                let mut acc = vals[p[0]].clone();
+                                for i in &p[1..] {
+                                    acc = acc.merge(vals[*i]);
+                                }
+                                outs.insert(project(&acc));
+                            });
+                            outs.len() > 1
+                        };
+                        let kinds = {
+                            let mut ks: Vec<&str> = vals.iter().map(|v| if v.crdt.type_name() == "lww" || v.crdt.type_name() == "string" { "Lww" } else { v.crdt.type_name() }).collect();
+                            ks.sort();
+                            ks.dedup();
+                            ks.join("+")
+                        };
                         return Some(Err((
-                            if multi_del(&evs) { "diverged after-multi-key-DEL".to_string() } else { format!("diverged ops={}", op_names(&evs)) },
+                            if multi_del(&evs) { "diverged after-multi-key-DEL".to_string() } else if order_dependent { format!("diverged merge-order-dependent kinds={kinds}") } else { format!("diverged ops={}", op_names(&evs)) },
                             format!("[{trace}]: every delta has reached every node, yet node0 reads {:?} and node{n} reads {:?} for key {k}", all_reads[0].get(&k), all_reads[n].get(&k)),
                         )));
                     }
